@@ -83,9 +83,12 @@ def build_trees(thorough):
     return trees
 
 
-def sidecar_content(index, rel):
+def sidecar_content(index, rel, total=0):
     tag = TAGS[index % len(TAGS)]
     own = f"own{index}"
+    if total == 1 and rel == "task-B_events.json":
+        # the only sidecar of the dataset, and its only HED keys are misplaced (inside Levels): still reported
+        return {"shared": {"Description": "no annotation at column level", "Levels": {"x": {"HED": "Red"}, "y": {"HED": "Blue"}}}}
     d = {"shared": {"HED": {"x": tag, "y": "Square"}},
          own: {"HED": {"x": f"Label/{own}", "y": "Circle"}}}
     # deeper files replace the whole column entry: vary the sub-keys so that a per-sub-key merge is observable
@@ -110,7 +113,7 @@ def write_tree(root, tree):
     for i, rel in enumerate(tree["sidecars"]):
         p = os.path.join(root, rel)
         os.makedirs(os.path.dirname(p), exist_ok=True)
-        contents[rel] = sidecar_content(i, rel)
+        contents[rel] = sidecar_content(i, rel, len(tree["sidecars"]))
         with open(p, "w") as f:
             json.dump(contents[rel], f)
     cols = ["onset", "shared", "valcol", "HED"] + [f"own{i}" for i in range(len(tree["sidecars"]))]
